@@ -120,7 +120,7 @@ def hyp_search(ctx, strategy, check, max_examples, label="main", shrink_calls=40
         h = sha(case)
         if h in failed:
             holder["v"], holder["case"] = failed[h], case
-            raise Violation(failed[h].signature, failed[h].detail)
+            raise failed[h]  # the same exception object: Hypothesis keys failures by their origin
         if holder.get("v") is not None:
             holder["post"] += 1
             if holder["post"] > shrink_calls:
@@ -159,7 +159,7 @@ def hyp_search(ctx, strategy, check, max_examples, label="main", shrink_calls=40
     except hypothesis.errors.Flaky as e:  # includes FlakyFailure
         v = holder.get("v")
         if v is not None:
-            ctx.stats.violations.append({"signature": v.signature, "detail": dict(v.detail, flaky=True), "case": holder["case"]})
+            ctx.stats.violations.append({"signature": v.signature, "detail": dict(v.detail, flaky=str(e)[:600]), "case": holder["case"]})
         else:
             raise HarnessError("flaky: " + str(e)[:300])
 
@@ -261,7 +261,7 @@ def run_check(prop, tier, seed, out=print):
         results = [_shard_main(args[0])]
     else:
         ctxmp = multiprocessing.get_context(os.environ.get("PV_MP", "spawn"))
-        with concurrent.futures.ProcessPoolExecutor(max_workers=min(16, nshards), mp_context=ctxmp) as ex:
+        with concurrent.futures.ProcessPoolExecutor(max_workers=min(int(os.environ.get("PV_WORKERS", "4")), nshards), mp_context=ctxmp) as ex:
             results = list(ex.map(_shard_main, args))
     for r in results:
         if not r["ok"]:
